@@ -76,7 +76,13 @@ def cfgOf (c : Json) : Cfg :=
   let j := fldD c "cfg" (Json.mkObj [])
   { accepted := natD j "accepted" 0, argument := natD j "argument" 0, authn := natD j "authn" 0,
     authz := natD j "authz" 0, comm := natD j "comm" 0, internal := natD j "internal" 0,
-    noRule := natD j "norule" 0, verbose := boolD j "verbose" false }
+    noRule := natD j "norule" 0, verbose := boolD j "verbose" false,
+    logLevel := match strD j "log" "disabled" with
+      | "trace" => .trace
+      | "debug" => .debug
+      | "info" => .info
+      | "warn" => .warn
+      | _ => .disabled }
 
 /-- content negotiation of `formatter.go` for the `Accept` values the generator uses: absent header, wildcards and
 the four supported media types are acceptable; other types and malformed values are not -/
